@@ -52,12 +52,21 @@ def generate(rng, tier):
             cases.append({"line": line, "meta": {"want": want, "full": all(c[3] != 0 for c in coef)}})
             continue
         trailing = gen.trailing_shape(rng, 1)
+        rowwise = False
+        if kind == "mix" and rng.random() < 0.4:
+            # 3-D data whose polynomial (and hence per-lane boundary values) depends on the first trailing index only: the
+            # boundary array is constant along its last axis but not along the one before
+            trailing = rng.choice([[2, 2], [3, 2], [2, 1], [2, 3]])
+            rowwise = True
         L = gen.shape_size(trailing)
         deg = {"lin": 1, "nat": 1, "par": 2}.get(kind, 3)
         nmin = {"lin": 2, "par": 3, "nak": 4}.get(kind, 3)
         n = 3 if kind == "par" else rng.choice([nmin, nmin, nmin + 1, nmin + 3, 9])
         xs = gen.axis_q(rng, n, rng.choice(["uniform", "geometric", "random", "dyadic", "mesh64", "clustered", "evenish"]))
         polys = [rpoly(rng, deg) for _ in range(L)]
+        if rowwise:
+            per_row = [rpoly(rng, deg) for _ in range(trailing[0])]
+            polys = [per_row[l // trailing[1]] for l in range(L)]
         flat = [poly_eval(polys[l], x) for x in xs for l in range(L)]
         if kind == "lin":
             strat = ("lin", ext)
@@ -65,13 +74,20 @@ def generate(rng, tier):
             strat = ("spl", ext, "nak")
         elif kind == "nat":
             strat = ("spl", ext, "nat")
+            if rng.random() < 0.5:
+                # the same condition spelled per lane and per side (Mixed{Natural, Natural}), or with an explicit zero second derivative
+                sp = rng.choice([("nat", "nat"), (("sd", Fr(0)), "nat"), ("nat", ("sd", Fr(0)))])
+                strat = ("spl", ext, ("ind", [1] + trailing, [sp] * L))
         else:
             rbs = []
+            row_kinds = {}
             for l in range(L):
-                def side(x):
-                    c = rng.choice(["nak", "fd", "sd"])
+                key = l // trailing[1] if rowwise else l
+                if key not in row_kinds:
+                    row_kinds[key] = (rng.choice(["nak", "fd", "sd"]), rng.choice(["nak", "fd", "sd"]))
+                def side(x, c):
                     return c if c == "nak" else (c, poly_eval(polys[l], x, 1 if c == "fd" else 2))
-                rbs.append((side(xs[0]), side(xs[-1])))
+                rbs.append((side(xs[0], row_kinds[key][0]), side(xs[-1], row_kinds[key][1])))
             if n == 3:
                 # avoid the 3-point NotAKnot/NotAKnot parabola special case for cubic data
                 rbs = [(("fd", poly_eval(polys[l], xs[0], 1)), r) if (lft == "nak" and r == "nak") else (lft, r)
